@@ -455,6 +455,72 @@ def same_length_variant(rng, doc):
     return (label, branch, col)
 
 
+# ---- what a comment says, and how many there are ----------------------------------------------------------------------------------
+# "Comments do not change the result": a comment is everything from `;` to the end of the line (the next "\n"), WHATEVER characters it
+# contains — control characters (a page break, a vertical tab, the separators FS/GS/RS, a lone CR in a stream), characters outside ASCII
+# (NEL, the Unicode line / paragraph separators, no-break spaces, letters), text that looks like document content — and however many
+# comment lines follow each other (a header block, a branch commented out line by line: tens, hundreds, thousands of lines).
+COMMENT_CHARS = {
+    "ctrl-sep": ["\x0b", "\x0c", "\x1c", "\x1d", "\x1e"],               # ASCII characters some line splitters take for a line end
+    "ctrl-other": ["\x01", "\x07", "\x08", "\x1b", "\x1f", "\x7f"],     # other ASCII control characters
+    "cr": ["\r"],                                                       # a lone CR (only in a stream: a text FILE reads it as a line end)
+    "uni-sep": ["\x85", "\u2028", "\u2029"],                            # line boundaries outside ASCII
+    "uni-other": ["\xa0", "\u3000", "\u200b", "\ufeff", "\xe9", "\xb5", "\u2026"],
+}
+COMMENT_CHAR_CLASSES = list(COMMENT_CHARS)
+ASCII_CHAR_CLASSES = ["ctrl-sep", "ctrl-other"]                         # may be stored in a file through `with_eol`
+COMMENT_WORDS = ["colour", "page", "was:", "tip", "checked", "R-{n}", "{n},", "see notes", "( {a} {b} 0 {r})", "({a} {b} {b} {r})", ")", "(", "|",
+                 "(Color Red)", "(Axon)", "1e", "{a}", ";", "End of split"]
+RUN_PLACES = ["header", "body", "body", "trailer"]
+RUN_SCALES = [(10, 99), (100, 999), (1000, 2999), (3000, 9000)]
+
+
+def comment_text(rng, chars, n=0):
+    """a comment body (no "\n"): words / content look-alikes with characters of `chars` between or inside them"""
+    words = [rng.choice(COMMENT_WORDS).format(n=n, a=rng.choice(NUMS), b=rng.choice(NUMS), r=rng.choice(["1", "0.75", ".5"])) for _ in range(rng.randint(1, 4))]
+    out = rng.choice(["", " "])
+    hit = rng.randrange(len(words))
+    for k, w in enumerate(words):
+        if k == hit or rng.random() < 0.3:
+            out += rng.choice(["", " "]) + rng.choice(chars) * rng.choice([1, 1, 2]) + rng.choice(["", " "])
+        elif k:
+            out += " "
+        out += w
+    return out + (rng.choice(chars) if rng.random() < 0.2 else "")
+
+
+def render_comment_chars(rng, doc, chars):
+    """`render_lines` with the text of (most of) the end-of-line comments replaced / added: comments whose text contains `chars`"""
+    lines = render_lines(rng, doc).split("\n")
+    n = 0
+    for i, ln in enumerate(lines):
+        code, sep, _ = ln.partition(";")
+        if (sep or code.strip()) and rng.random() < (0.8 if sep else 0.35) or (i == 0 and not code.strip()):
+            n += 1
+            lines[i] = code + rng.choice([";", " ;", "  ; ", ";;"]) + comment_text(rng, chars, n)
+    if n == 0:
+        lines.insert(0, ";" + comment_text(rng, chars, 0))
+    return "\n".join(lines) + ("" if lines[-1] == "" else "\n"), max(n, 1)
+
+
+def render_comment_run(rng, doc, place, count):
+    """`render_lines` with a run of `count` consecutive comment lines (nothing but blanks between them) in the header / body / trailer"""
+    lines = render_lines(rng, doc).rstrip("\n").split("\n")
+    first = min(i for i, ln in enumerate(lines) if ln.split(";")[0].strip() == "(")
+    last = max(i for i, ln in enumerate(lines) if ln.split(";")[0].strip() == ")")
+    at = {"header": rng.randint(0, first), "body": rng.randint(first + 1, last), "trailer": rng.randint(last + 1, len(lines))}[place]
+    style = rng.choice(["old", "plain", "mixed"])
+    ind = rng.choice(["", "  ", "\t", "    "])
+
+    def one(k):
+        if style == "old" or style == "mixed" and rng.random() < 0.5:          # a tracing commented out line by line
+            return f"{ind}; ( {k % 97}.{k % 10}0 {rng.choice(NUMS)} 0 0.75)" + rng.choice(["", f" ; {k}, R-1"])
+        return ind + rng.choice([";", "; ", ";; "]) + rng.choice(["", f"note {k}", "-" * rng.randint(1, 30), f"section {k // 50}"])
+
+    run = [one(k) for k in range(count)]
+    return "\n".join(lines[:at] + run + lines[at:]) + "\n"
+
+
 def table_of(t):
     n = t.number_of_nodes()
     return {"n": n, "id": t.id().tolist(), "pid": t.pid().tolist(), "type": t.type().tolist(),
@@ -677,6 +743,31 @@ class Convert(Suite):
                 break
             c.update({"class": f"again/{between}/{first_via}-{via}", "text": text, "rows": _ser(rows)})
             out.append(c)
+        # comments whose TEXT contains characters other than printable ASCII: every class of characters in turn, through every entry point
+        # (a class outside ASCII and the lone CR only through a stream: the bytes / line ends of a file are the platform's business)
+        for k in range(60 if big else 20):
+            kl = COMMENT_CHAR_CLASSES[k % len(COMMENT_CHAR_CLASSES)]
+            d = doc()
+            text, ncom = render_comment_chars(rng, d, COMMENT_CHARS[kl])
+            via = rng.choice(["stream"] + FILE_VIAS) if kl in ASCII_CHAR_CLASSES else "stream"
+            out.append({"class": f"comment-chars/{kl}", "text": text, "rows": _ser(expected_rows(d)), "via": via, "comments": ncom,
+                        "eol": rng.choice(["lf", "lf", "crlf"])})
+        # … and a truncated / corrupted document with such comments is still rejected
+        for k in range(10 if big else 4):
+            kl = COMMENT_CHAR_CLASSES[k % len(COMMENT_CHAR_CLASSES)]
+            d = doc()
+            lines_ = render_comment_chars(rng, d, COMMENT_CHARS[kl])[0].split("\n")
+            first = min(i for i, ln in enumerate(lines_) if ln.split(";")[0].strip() == "(")
+            last = max(i for i, ln in enumerate(lines_) if ln.split(";")[0].strip() == ")")
+            out.append({"class": f"truncated/comment-chars/{kl}", "text": "\n".join(lines_[:rng.randint(first + 1, last)]) + "\n", "rows": None, "via": "stream"})
+        # runs of consecutive comment lines of every order of magnitude (tens … thousands), in the header / the body / behind the tree
+        for k in range(16 if big else 8):
+            place = RUN_PLACES[k % len(RUN_PLACES)]
+            lo, hi = RUN_SCALES[(k + k // len(RUN_PLACES) * 2 + 2) % len(RUN_SCALES)] if not big or k < 8 else (3000, 30000)
+            count = rng.randint(lo, hi)
+            d = doc()
+            out.append({"class": f"comment-run/{place}/1e{len(str(count)) - 1}", "text": render_comment_run(rng, d, place, count),
+                        "rows": _ser(expected_rows(d)), "via": rng.choice(["stream", "stream"] + FILE_VIAS), "run": count, "big": count > 500})
         return out
 
     def run(self, case):
